@@ -81,7 +81,8 @@ Definition hclo_ok (a : Z) (tn : ident) (cls : list clause) (cenv : ctx) : Prop 
       (forall s o, finishes im pcc s o -> finishes im i s o) /\
       a_load cenv (cl_ctx c) lcl = Ok (cl, lcb) /\ acs (ptypes p) (cl_body c) (cl_ctx c ++ cenv) lcb = Ok (cb, lcb') /\
       code_at im pcc (cl ++ cb) /\ labels_at_nh im pcc (cl ++ cb) /\
-      lin_check (sigs_of p) (cl_ctx c ++ cenv) (cl_body c) = true /\ ann_check (cl_ctx c ++ cenv) (cl_body c) = true.
+      lin_check (sigs_of p) (cl_ctx c ++ cenv) (cl_body c) = true /\ ann_check (cl_ctx c ++ cenv) (cl_body c) = true /\
+      stmt_lits (cl_body c) = true.   (* AArch64: the literals of the body are 64-bit values *)
 
 Local Notation hrel := (hrel (ptypes p) hclo_ok).
 Local Notation hvrep := (hvrep (ptypes p) hclo_ok).
@@ -192,7 +193,7 @@ Qed.
 Theorem hsim_create c he hs s sp v t env cls next lc code lc' pc he0 cap tn ce hl fl cl :
   hrel c he hs s sp ->
   lin_check (sigs_of p) c (Create v t (Some env) cls next) = true ->
-  skipn (List.length c - List.length env) c = env -> ann_clauses_cr env cls = true ->
+  skipn (List.length c - List.length env) c = env -> ann_clauses_cr env cls = true -> clauses_lits cls = true ->
   acs (ptypes p) (Create v t (Some env) cls next) c lc = Ok (code, lc') -> code_at im pc code -> labels_at_nh im pc code ->
   (forall lcx, hash_name (type_label t lcx) = false) ->
   ty_name t = Some tn -> AxSem.split_last (List.length env) he = Some (he0, cap) ->
@@ -208,7 +209,7 @@ Theorem hsim_create c he hs s sp v t env cls next lc code lc' pc he0 cap tn ce h
     exec_to im pc s (padd pc (List.length c12)) s' /\
     hrel (c0 ++ [mkb v Cns t]) (he0 ++ [(v, VClo tn cls ce, fst res)]) (snd res) s' sp /\ hframe_eq s s' sp.
 Proof.
-  intros R LC ANN ANC CS CA LA NHL TN SL BD IA K03 EX res HF HH0 HF0 c0'.
+  intros R LC ANN ANC LITC CS CA LA NHL TN SL BD IA K03 EX res HF HH0 HF0 c0'.
   destruct (cs_create _ _ _ _ _ _ _ _ _ _ CS) as (rest & cenv & c1 & lc1 & tmpv & c3 & lc3 & c5 & BS & XS & TV & NX & CC & ->).
   apply bsplit_last_app in BS as [-> LA1]. apply asplit_last_app in SL as [-> LF].
   apply ty_name_Decl in TN. subst t.
@@ -262,9 +263,10 @@ Proof.
                 CAL LAL (NHL _) CC AL k cl0 Hk) as (i & pcc & lcl & cl1 & lcb & cb & lcb' & IX & (pca & PA) & ARR & _ & LD & BD' & CAb & LAb).
     exists i, pcc, lcl, cl1, lcb, cb, lcb'. split; [exact IX|]. split; [exact (SMALL _ _ PA)|]. split; [exact ARR|].
     split; [exact LD|]. split; [exact BD'|]. split; [exact CAb|]. split; [exact LAb|].
-    split.
+    split; [|split].
     - unfold lin_clauses_cr in LCc. rewrite forallb_forall in LCc. apply LCc. eapply nth_error_In; eauto.
-    - unfold ann_clauses_cr in ANC. rewrite forallb_forall in ANC. apply ANC. eapply nth_error_In; eauto. }
+    - unfold ann_clauses_cr in ANC. rewrite forallb_forall in ANC. apply ANC. eapply nth_error_In; eauto.
+    - unfold clauses_lits in LITC. rewrite forallb_forall in LITC. apply LITC. eapply nth_error_In; eauto. }
   (* the code address *)
   assert (T2 : atpos Snd (List.length rest) = Ok tmpv).
   { rewrite <- TV. symmetry. change (idn v) with (idn (bvar (mkb v Cns (Decl tn)))). apply vt_tpos; auto. apply nth_error_mid. }
